@@ -7,7 +7,7 @@ untouched extensions, and filter_kmers reaches no pruning function); the re-comp
 and prunes again in that order for every censoring scenario, with the complete graph-route step table; pieces and their
 boundary extensions agree ((start, len) on the same read; flank tables); the shard score is a permutation look-up,
 strand-symmetric in reverse-complement mode; the shard id is the rank of the canonical minimizer."""
-from .. import dt_graph, dt_tables, dt_compress, dt_msp
+from .. import dt_graph, dt_tables, dt_compress, dt_msp, lemmas
 from . import common
 
 ASSUMPTIONS = ["weakest claim of the set: only the listed mechanisms are decided, not the equality of the two resulting graphs"]
@@ -33,3 +33,5 @@ def run(F, rep):
     rep.run(dt_graph.fix_exts_table, F, rep, "C04.6")
     # recombination looks nodes up by their terminal k-mers (views of the packed store) and reads shard pieces back as k-mers
     rep.run(common.run_store_kmer_lemmas, F, rep, "C04.6")
+    # shard pieces are packed into fixed-size strings when the caller asks for them: Lmer::from_slice must keep every base and the length
+    rep.run(lemmas.lmer_lemmas, F, rep, which={"from_slice"})
